@@ -692,9 +692,10 @@ func expandHelpers(modPkgs []*packages.Package, fset *token.FileSet, readSrc fun
 						return true
 					}
 					c, recv := calleeOf(call)
-					if c == nil || recv != nil || c.fd.Recv != nil || c.fd.Type.TypeParams != nil {
+					if c == nil || c.fd.Type.TypeParams != nil || (recv != nil) != (c.fd.Recv != nil) {
 						return true
 					}
+					exprRecv = recv
 					if repl, ok := exprExpansion(call, c, info, fset, readSrc, c.file == f, callerPkgs); ok {
 						nl := strings.Count(text(call.Pos(), call.End()), "\n")
 						edits = append(edits, textEdit{off(call.Pos()), off(call.End()), repl + strings.Repeat("\n", nl)})
@@ -996,6 +997,9 @@ func newFuncKeys(modPkgs []*packages.Package) map[string]bool {
 	return out
 }
 
+// exprRecv: the receiver expression of the call handed to exprExpansion (nil for a plain function).
+var exprRecv ast.Expr
+
 // exprExpansion: the text that replaces a call of a single-return-expression helper inside an expression.
 func exprExpansion(call *ast.CallExpr, c *inlineCand, info *types.Info, fset *token.FileSet, readSrc func(string) []byte, sameFile bool, callerPkgs map[string]string) (string, bool) {
 	if len(c.fd.Body.List) != 1 || c.fd.Type.Results == nil || len(c.fd.Type.Results.List) != 1 || len(c.fd.Type.Results.List[0].Names) > 1 {
@@ -1052,6 +1056,33 @@ func exprExpansion(call *ast.CallExpr, c *inlineCand, info *types.Info, fset *to
 	}
 	// parameters -> argument text
 	sub := map[types.Object]string{}
+	// a method: the receiver is substituted like a parameter when the call's receiver expression is side-effect free and
+	// has the pointer level the method declares (a pointer for a pointer receiver, a value for a value receiver)
+	if c.fd.Recv != nil {
+		recvExpr := exprRecv
+		if recvExpr == nil || len(c.fd.Recv.List) != 1 || !pure(recvExpr) {
+			return "", false
+		}
+		rf := c.fd.Recv.List[0]
+		_, wantPtr := rf.Type.(*ast.StarExpr)
+		rtv := info.TypeOf(recvExpr)
+		if rtv == nil {
+			return "", false
+		}
+		_, havePtr := rtv.Underlying().(*types.Pointer)
+		if wantPtr != havePtr {
+			return "", false
+		}
+		rx := string(asrc[atf.Offset(recvExpr.Pos()):atf.Offset(recvExpr.End())])
+		if strings.Contains(rx, "//") || strings.Contains(rx, "\n") {
+			return "", false
+		}
+		if len(rf.Names) == 1 && rf.Names[0].Name != "_" {
+			if o := info.Defs[rf.Names[0]]; o != nil {
+				sub[o] = "(" + rx + ")"
+			}
+		}
+	}
 	k := 0
 	if c.fd.Type.Params != nil {
 		for _, fld := range c.fd.Type.Params.List {
